@@ -58,6 +58,20 @@ def data_cases(tier, seed):
     return cases
 
 
+def hexname(b):
+    return b.hex()
+
+
+# abstract component -> concrete file name (bytes): newline and invalid UTF-8, blanks / UTF-8 / glob characters, a byte >= 0xfe,
+# and (second map) 200-byte names; both maps keep the bytewise order of the universe (".", a, b, d, d-, d/a)
+NAMEMAPS = [
+    {"a": hexname(b"a\n\xff\xfe"), "b": hexname("b \u00e9*?[x]".encode()), "d": hexname(b"d\xfe"), "d-": hexname(b"d\xfe-")},
+    # (200-byte names: the receiver's temporary name is "." + name + a 19-digit suffix and must fit into 255 bytes -
+    # longer names cannot be received at all, which fails the transfer and is a limit of the implementation, not of C01)
+    {"a": hexname(b"a" * 200), "b": hexname(b"b" + b"\x80" * 199), "d": hexname(b"d" * 199), "d-": hexname(b"d" * 199 + b"-")},
+]
+
+
 def check(w):
     v = Verdict(w, "model_checking")
     quick = w.tier == "quick"
@@ -77,6 +91,19 @@ def check(w):
             if arr == "pull" and k % 4 == 3:
                 form = "sub"
             lines.append(p_sync.mk_line(s, arr, JUDGE, form=form))
+    # the same scenarios with the abstract names of the universe CONCRETISED as arbitrary byte strings (newline, invalid
+    # UTF-8, blanks, glob characters, 255-byte names): what the specification calls "a" is such a name on disk and on the wire
+    named = 0
+    for k, s in enumerate(scen):
+        if k % (12 if quick else 3):
+            continue
+        nm = NAMEMAPS[(k // 12) % len(NAMEMAPS)]
+        for arr in ((ARRS[k % 5], "lib") if quick else ARRS):
+            ln = p_sync.mk_line(s, arr, JUDGE)
+            ln["namemap"] = nm
+            ln["echo"]["cls"] = "names/%d" % NAMEMAPS.index(nm)
+            lines.append(ln)
+            named += 1
     for k, s in enumerate(data_cases(w.tier, w.seed)):
         arrs = ARRS if not quick else (ARRS[k % 5],)
         for arr in arrs:
@@ -92,7 +119,7 @@ def check(w):
         "exhaustive": not quick,
         "samples": [{"arr": o["arr"], "form": o["form"], "flags": o["flags"], "class": (o.get("echo") or {}).get("cls"), "result": o["result"],
                      "final": [(n["p"], n["t"], n["c"], n["sz"]) for n in o["final"]]} for o in (obs[:2] + big[:2])],
-        "tlc_scenarios": len(scen), "data_cases": len(big), "evaluations": len(obs),
+        "tlc_scenarios": len(scen), "data_cases": len(big), "runs_with_arbitrary_byte_names": named, "evaluations": len(obs),
         "distinct_nontrivial": sum(1 for o in obs if any(n["t"] == "reg" for n in o["dst"])),
         "max_file_bytes": max([n["sz"] for o in big for n in o["src"]] or [0]),
         "rule": "TLC family c01 (every prior state of two files, a directory and an empty file x {-t,-c,-I}) in five arrangements and source forms (dir/, dir, two sources, module/sub/), plus data cases "
@@ -106,5 +133,5 @@ def check(w):
     v.coverage["transitions"] += sum(x["generated"] for x in rs)
     v.coverage.update(p_sync.wire_coverage(counts))
     v.assumptions = ["file contents are pseudo-random functions of (content id, size) or derived edits; equality is judged by digest",
-                     "names are plain ASCII in this check (arbitrary-byte names are not yet generated)"]
+                     "arbitrary-byte names are generated through two order-preserving name maps (newline, invalid UTF-8, blanks, glob characters, bytes >= 0xfe, 254/255-byte names)"]
     return v.finish()
